@@ -112,7 +112,28 @@ def main(argv):
                 cmd = [py, "-B", "-m", "vp.worker", pid, "search", sc.name, tier, str(sh), str(ns), str(seed), out,
                        ",".join(active) if active else "-"]
                 jobs.append({"sc": sc, "shard": sh, "out": out, "cmd": cmd, "proc": None, "log": out + ".log"})
-        pending = list(jobs)
+        # ---- optional coverage-guided tier (thorough only): atheris/libFuzzer drives the same sub-check strategies
+        fuzz_jobs = []
+        fuzz_cfg = getattr(mod, "FUZZ", None)
+        if tier == "thorough" and fuzz_cfg and not os.environ.get("VERIF_NO_FUZZ"):
+            try:
+                import atheris  # noqa: F401
+                have_atheris = True
+            except Exception:
+                have_atheris = False
+            if have_atheris:
+                for subname, runs, nproc in fuzz_cfg:
+                    if only and subname not in only:
+                        continue
+                    for k in range(nproc):
+                        out = os.path.join(work, "fuzz-%s-%d.json" % (subname, k))
+                        cmd = [py, "-B", "-m", "vp.fuzz", pid, subname, str(runs), str(core.derive_seed(seed, "fuzz/%s/%s" % (pid, subname), k)), out,
+                               ",".join(active) if active else "-"]
+                        j = {"sc": None, "fuzz": subname, "shard": k, "out": out, "cmd": cmd, "proc": None, "log": out + ".log"}
+                        fuzz_jobs.append(j)
+            else:
+                print("note: atheris not importable; coverage-guided tier skipped (inconclusive, not a violation)")
+        pending = list(jobs) + list(fuzz_jobs)
         running = []
         while pending or running:
             while pending and len(running) < NCPU:
@@ -156,6 +177,39 @@ def main(argv):
             for v in r["violations"]:
                 violations.append((name, v, None))
 
+        # ---- aggregate the coverage-guided tier
+        fuzz_sum = {}
+        for j in fuzz_jobs:
+            name = j["fuzz"]
+            fs = fuzz_sum.setdefault(name, {"evaluations": 0, "nt": set(), "processes": 0, "libfuzzer_runs": 0, "coverage_edges": 0, "samples": []})
+            rc = j["proc"].returncode
+            try:
+                with open(j["out"]) as f:
+                    r = json.load(f)
+            except Exception:
+                r = None
+            with open(j["log"]) as f:
+                logtxt = f.read()
+            if r is None or rc not in (0, 77):
+                harness_errors.append("fuzz %s #%d: exit %s\n%s" % (name, j["shard"], rc, logtxt[-1500:]))
+                continue
+            fs["processes"] += 1
+            fs["evaluations"] += r["evaluations"]
+            fs["nt"].update(r["nt_hashes"])
+            if len(fs["samples"]) < 1:
+                fs["samples"].extend(r["samples"][:1])
+            import re as _re
+            m = _re.findall(r"stat::number_of_executed_units:\s+(\d+)", logtxt)
+            if m:
+                fs["libfuzzer_runs"] += int(m[-1])
+            m = _re.findall(r"cov: (\d+)", logtxt)
+            if m:
+                fs["coverage_edges"] = max(fs["coverage_edges"], int(m[-1]))
+            if r.get("harness_error"):
+                harness_errors.append("fuzz %s #%d: %s" % (name, j["shard"], r["harness_error"]))
+            if r.get("violation"):
+                violations.append((name, r["violation"], "atheris"))
+
         # ---- report ---------------------------------------------------------------
         seen = set()
         vio_lines = []
@@ -168,10 +222,12 @@ def main(argv):
             print("violation in %s: %s: %s%s" % (name, v.get("tag"), (v.get("msg") or "")[:600],
                                                  (" (from %s)" % src) if src else ""))
             vio_lines.append("VIOLATION property=%s replay=%s" % (pid, path))
-        total_eval = sum(a["evaluations"] for a in per_sub.values()) + corpus_n
+        total_eval = sum(a["evaluations"] for a in per_sub.values()) + corpus_n + sum(f["evaluations"] for f in fuzz_sum.values())
         all_nt = set()
         for name, a in per_sub.items():
             all_nt.update(name + ":" + h for h in a["nt"])
+        for name, f in fuzz_sum.items():
+            all_nt.update(name + ":" + h for h in f["nt"])
         samples = []
         for name, a in per_sub.items():
             for s in a["samples"][:1]:
@@ -193,6 +249,10 @@ def main(argv):
                 "corpus_replayed": corpus_n,
                 "excluded_known": excluded_total,
                 "known_findings_active": active,
+                "coverage_guided": {n: {"engine": "atheris (libFuzzer) driving the sub-check's Hypothesis strategy", "processes": f["processes"],
+                                        "libfuzzer_runs": f["libfuzzer_runs"], "cases_decoded_and_checked": f["evaluations"],
+                                        "distinct_nontrivial": len(f["nt"]), "coverage_edges": f["coverage_edges"],
+                                        "sample": f["samples"][:1]} for n, f in fuzz_sum.items()},
                 "per_subcheck": {n: {"evaluations": a["evaluations"], "held": a["ok"],
                                      "distinct_nontrivial": len(a["nt"]), "shards": a["shards"],
                                      "skipped": a["skipped"], "excluded_known": a["excluded"],
